@@ -10,7 +10,7 @@
    EVERY byte list, every resume state and every variant record — no well-formedness of
    the input is assumed unless stated. *)
 From MptV Require Import Base.Mem Cobs.CobsModel Cobs.DecModel Cobs.EncProofs Cobs.EncTheorems Cobs.DecProofs Cobs.DecCall
-  Cobs.DecComplete Cobs.DecHistory.
+  Cobs.DecComplete Cobs.DecHistory Cobs.TextModel Cobs.TextHistory.
 
 (* SAFETY, one call, arbitrary bytes and (well-formed) resume state: the region keeps its
    size; nothing before the state's decoded data is written; if anything was written, the
@@ -138,6 +138,27 @@ Theorem C03_call_delivers_accepted_frame :
     dcurr st' = dcurr st + length body + 1 /\ skipn (dcurr st') buf' = tl.
 Proof. exact dec_call_complete. Qed.
 
+(* THE COMMAND DECODER (mpt_decode_command: zero-terminated text, message header prepended in
+   place).  [tinv G st buf]: between messages, or inside one whose text bytes [G] so far sit behind
+   the header.  One call from such a state: a message is header ++ the text up to the next zero;
+   otherwise all unread bytes (none of them zero) were taken into the open message; an error
+   changes nothing. *)
+Theorem C03_command_call_honest :
+  forall G st buf, tinv G st buf ->
+    let '(r, st', buf') := cmd_call st buf in
+    match r with TErr _ => st' = st /\ buf' = buf | _ => tcall_post G (tcurr st) buf r st' buf' end.
+Proof. exact cmd_call_honest. Qed.
+
+(* ... and over every history of calls and feeds, whatever the bytes and however they are cut:
+   the messages delivered are header ++ text for the successive zero-terminated texts at the
+   front of the input, in order *)
+Theorem C03_command_history_delivers :
+  forall slack inp ops, 2 <= length slack ->
+    let s := trun (mkths (mkt (length slack) 0 0 None) (slack ++ inp) []) ops in
+    exists bodies C rest, inp ++ concat (map tfed ops) = C ++ rest /\ texts_of bodies C /\
+      ts_msgs s = map (app cmd_header) bodies.
+Proof. exact cmd_history_delivers. Qed.
+
 (* ---- non-vacuity ---- *)
 Example C03_hon_start : forall v c, 1 <= c -> hon v [nb c] [] c 0.
 Proof. exact hon_start. Qed.
@@ -162,6 +183,12 @@ Example C03_example_history :
   hs_stop s = false /\ hs_msgs s = [[65;0;0;66;0]; [7]]%N.
 Proof. vm_compute. auto. Qed.
 
+(* two commands arriving in three pieces *)
+Example C03_example_command_history :
+  let s := trun (mkths (mkt 2 0 0 None) [238;238;97;98]%N []) [TCall; TFeed [99;0;100]%N; TCall; TCall; TFeed [0]%N; TCall] in
+  ts_msgs s = [[4;32;97;98;99]; [4;32;100]]%N.
+Proof. vm_compute. reflexivity. Qed.
+
 Example C03_dwf_init : forall n, dwf (dinit n).
 Proof. intros n c H. discriminate. Qed.
 
@@ -178,3 +205,5 @@ Print Assumptions C03_accepted_frame_is_delivered_cobs.
 Print Assumptions C03_call_delivers_reference_decoding.
 Print Assumptions C03_history_delivers_frames.
 Print Assumptions C03_call_delivers_accepted_frame.
+Print Assumptions C03_command_call_honest.
+Print Assumptions C03_command_history_delivers.
